@@ -2,6 +2,7 @@
 package mon
 
 import (
+	"bytes"
 	"encoding/json"
 	"fmt"
 	"math/big"
@@ -125,4 +126,41 @@ func trunc(s string, n int) string {
 		return s[:n] + "…"
 	}
 	return s
+}
+
+// GenRows parses one ORM table of a genesis document into generic rows (a leading auto-increment
+// sequence number is skipped). Field access helpers follow.
+func GenRows(raw json.RawMessage) []map[string]interface{} {
+	var l []interface{}
+	d := json.NewDecoder(bytes.NewReader(raw))
+	d.UseNumber()
+	if d.Decode(&l) != nil {
+		return nil
+	}
+	var out []map[string]interface{}
+	for _, x := range l {
+		if r, ok := x.(map[string]interface{}); ok {
+			out = append(out, r)
+		}
+	}
+	return out
+}
+
+func gs(r map[string]interface{}, k string) string {
+	v, ok := r[k]
+	if !ok || v == nil {
+		return ""
+	}
+	return fmt.Sprint(v)
+}
+
+func gu(r map[string]interface{}, k string) uint64 {
+	var n uint64
+	fmt.Sscan(gs(r, k), &n)
+	return n
+}
+
+func gb(r map[string]interface{}, k string) bool {
+	v, _ := r[k].(bool)
+	return v
 }
